@@ -19,7 +19,7 @@ class C11(ProgramProperty):
             "another record, two pairs aiming at one prefix, keys that are synonyms of one record; the result's "
             "records and get_prefixes(include_synonyms=True) are read, and compress / expand are compared before "
             "and after on a probe set. Non-trivial = the remapping is accepted and some key is also a value, or "
-            "a value is already known to the converter.")
+            "a value is already known to the converter. In 35 % of the cases input and result live on (gen.live_tail): each is extended by a merge, all are observed again, and the remapping and a second remapping are applied to the curated input.")
 
     def budget(self, tier):
         return 4000 if tier == "quick" else 150000
